@@ -13,6 +13,7 @@
 (*         "stop" (context cancelled);                                     *)
 (*         ret  "ok" | "idle" | "dead" | "crash" | "hang" | "panic" |      *)
 (*              "fail" (Start returned an error);                          *)
+(*         fired  the injected fault did occur;                            *)
 (*         seq  the database states after every COMMITTED transaction of   *)
 (*              the step; rng the block range the step fetched ([] none);  *)
 (*         ob[o] = [up, db] after the step, db = [nb, li, ks, co] with the  *)
@@ -35,7 +36,7 @@ RangeOf(s) == {s[i] : i \in DOMAIN s}
 DbOf(j) == DB(j.nb, j.li, RangeOf(j.ks), RangeOf(j.co))
 Dbs(line) == [o \in DOMAIN line.ob |-> DbOf(line.ob[o].db)]
 Ups(line) == [o \in DOMAIN line.ob |-> line.ob[o].up]
-SeqOf(line) == [i \in DOMAIN line.seq |-> DbOf(line.seq[i])]
+CommitsOf(line) == [i \in DOMAIN line.seq |-> DbOf(line.seq[i])]
 
 NoDupJ(j) == Cardinality({j.ks[i].idx : i \in DOMAIN j.ks}) = Len(j.ks) /\ Cardinality({j.co[i].act : i \in DOMAIN j.co}) = Len(j.co)
 
@@ -52,7 +53,7 @@ LineViol(line, pv) ==
              THEN K4_Failed(line.ret, line.a.f.k # "none") ELSE {})
        \cup (IF line.k = "step" /\ line.a.op = "poll"
              THEN LET o == line.a.o
-                      states == <<pv[o]>> \o SeqOf(line)
+                      states == <<pv[o]>> \o CommitsOf(line)
                   IN K2_Seq(all, states, 1)
                      \cup (IF states[Len(states)] = dbs[o] THEN {} ELSE K2_FailedA(all, states[Len(states)], dbs[o]) \cup {"K2_Phantom"})
                      \cup (IF line.a.f.k = "none" THEN K5_Stuck(line.blk, line.canon, dbs[o], line.ret) ELSE {})
@@ -73,6 +74,7 @@ SpecStep(line, pv, s) ==
                           good == a.f.k = "none"
                       IN [ok |-> /\ ~s[o].up /\ dbs[o] = pv[o]
                                  /\ ups[o] = good /\ line.ret = (IF good THEN "ok" ELSE "fail")
+                                 /\ line.fired = ~good
                                  /\ \A x \in DOMAIN dbs : x # o => same(x),
                           sp |-> [s EXCEPT ![o] = [up |-> good, mem |-> IF good THEN StartMem(pv[o]) ELSE NoMem]]]
                  [] a.op = "stop" ->
@@ -83,8 +85,9 @@ SpecStep(line, pv, s) ==
                           r == Poll(line.blk, line.canon, pv[o], s[o].mem, FOf(a))
                           up2 == r.ret \in {"ok", "idle"}
                       IN [ok |-> /\ s[o].up
-                                 /\ r.seq = SeqOf(line) /\ r.db = dbs[o]
+                                 /\ r.seq = CommitsOf(line) /\ r.db = dbs[o]
                                  /\ r.ret = line.ret /\ r.rng = line.rng
+                                 /\ line.fired = (a.f.k # "none")
                                  /\ ups[o] = up2
                                  /\ \A x \in DOMAIN dbs : x # o => same(x),
                           sp |-> [s EXCEPT ![o] = [up |-> ups[o], mem |-> IF up2 THEN r.mem ELSE NoMem]]]
